@@ -1,10 +1,12 @@
 """C09: connection-level check (see DESIGN section 6 / C09): scenario families on the real endpoints, recorded traces
 validated against RSocket.tla by TLC; design-level model checking of the same monitors in RSocketMC.tla."""
-from . import conn, families, mc, sourcemodel
+from . import conn, families, mc, sourcemodel, leasemodel
 
 
 def run(v):
     # cancel() on the library's own sources at every point, also before the loop ran (Source.tla: NothingAfterCancel)
     sourcemodel.check(v, 'C09')
+    # cancelling an interaction whose request is still waiting for a lease (Lease.tla, AppActsOnHeldRequest)
+    leasemodel.check_acts(v, 'C09')
     mc.run_for(v, 'C09')
     conn.check(v, 'C09', families.FAMILIES['C09'])
